@@ -69,6 +69,9 @@ SWHID_RE_RAW = (
 )
 SWHID_RE = re.compile(SWHID_RE_RAW)
 
+_LINES_QUALIFIER_RE = re.compile("[0-9]+(-[0-9]+)?")
+"""``<line_number> ["-" <line_number>]``, with ``<line_number> ::= <dec_digit> +``"""
+
 
 # type of the "object_type" attribute of the SWHID class; either
 # ObjectType or ExtendedObjectType
@@ -222,6 +225,10 @@ def _parse_lines_qualifier(
     try:
         if lines is None or isinstance(lines, tuple):
             return lines
+        elif isinstance(lines, str) and not _LINES_QUALIFIER_RE.fullmatch(lines):
+            # int() is more lenient than the grammar (signs, underscores,
+            # surrounding spaces, non-ASCII digits)
+            raise ValueError(lines)
         elif "-" in lines:
             (from_, to) = lines.split("-", 2)
             return (int(from_), int(to))
